@@ -12,6 +12,7 @@ CONSTANTS
   ByzVotes = "free"
   Loss = "all"
   Serve = "any"
+  Equiv = TRUE
 INVARIANTS TypeOK NoWedge
 VIEW View
 CHECK_DEADLOCK FALSE
